@@ -498,13 +498,14 @@ func (ndb *nodeDB) deleteVersion(version int64, cache *rootkeyCache) error {
 					return err
 				}
 			}
+			nk := orphan.GetKey()
 			if orphan.nodeKey.nonce == 1 && orphan.nodeKey.version < version {
 				// if the orphan is referred to the previous root, it should be reformatted
 				// to (version, 0), because the root (version, 1) should be removed but not
-				// applied now due to the batch writing.
-				orphan.nodeKey.nonce = 0
+				// applied now due to the batch writing. (The node itself may be shared with
+				// concurrent readers through the node cache and is not modified.)
+				nk = (&NodeKey{version: orphan.nodeKey.version, nonce: 0}).GetKey()
 			}
-			nk := orphan.GetKey()
 			if orphan.isLegacy {
 				return ndb.deleteFromPruning(ndb.legacyNodeKey(nk))
 			}
